@@ -172,7 +172,7 @@ def invoke_cases(draw, forced, rot):
         raw = draw(st.lists(st.sampled_from(VALUES), min_size=3, max_size=7))
         pat = [_wrap(v + (fnum + 1) * i + fnum) for i, v in enumerate(raw)]
         if "nonzero" in field_cons.get(nam, ()):
-            pat = [v if v else 1 + fnum for v in pat]
+            pat = [v if v else 1 + fnum % 6 for v in pat]
         fields.append({"name": nam, "type": typ, "space": spaces[group],
                        "pattern": pat})
     scalars = []
